@@ -49,6 +49,23 @@ PRIMS = {
                           "runs": 200, "len": 400}],
         },
     },
+    "event": {
+        "module": "Event",
+        "obs_trace": "EventObsTrace",
+        "trace_consts": ["K", "InitSet"],
+        "trace_cfg_consts": ["K <- TraceK", "InitSet <- TraceInitSet", 'Wk = {"A", "B"}'],
+        "flavours": ["local", "pl", "vlock"],
+        "tour_cfgs": {
+            "quick": ["Event.tour-unset.cfg", "Event.tour-set.cfg"],
+            "thorough": ["Event.tour-unset.cfg", "Event.tour-set.cfg"],
+        },
+        "model_cfgs": {"quick": [], "thorough": ["Event.deep.cfg"]},
+        "random": {
+            "quick": [{"consts": {"K": 6, "Wk": [1, 2], "InitSet": False}, "runs": 20, "len": 200, "flavours": ["local", "pl"]}],
+            "thorough": [{"consts": {"K": 10, "Wk": [1, 2], "InitSet": False}, "runs": 200, "len": 400},
+                         {"consts": {"K": 10, "Wk": [1, 2], "InitSet": True}, "runs": 100, "len": 400}],
+        },
+    },
 }
 
 ALL = list(PRIMS.keys())
@@ -61,6 +78,7 @@ PROPS = {
     "C05": {"prims": ["semaphore"], "invs": {"semaphore": ["C05"]}},
     "C06": {"prims": ["semaphore"], "invs": {"semaphore": ["C06", "OrdOK"]}},
     "C07": {"prims": ["semaphore"], "invs": {"semaphore": ["C07", "OrdOK"]}},
+    "C14": {"prims": ["event"], "invs": {"event": ["C14"]}},
     "C17": {"prims": ALL, "invs": {p: ["C17"] for p in ALL}},
     "C18": {"prims": ALL, "invs": {p: ["C18"] for p in ALL}},
 }
